@@ -127,9 +127,9 @@ def deepParam : Source :=
     jsonSchema := .obj [], schemaFields := [("example", "examples")] }
 
 /-- the full statement: an example on a sub-schema reachable through *any* nesting of anyOf / oneOf is extracted -/
-def ExtractsAtAnyDepth : Prop :=
+def ExtractsAtAnyDepth (vRef : Variant) : Prop :=
   ∀ (s : Source) (sch branch : Json) (f : String) (v : Json), s.definition.get? "schema" = some sch →
-    Branch sch branch → f ∈ s.exampleFields → branch.get? f = some v → s.mk' v ∈ extractTopLevel [s]
+    Branch sch branch → f ∈ s.exampleFields → branch.get? f = some v → s.mk' v ∈ extractTopLevel vRef [s]
 
 /-- body schema `anyOf: [ {type: object, properties: {b: {type: string, example: "AP"}}} ]` -/
 def deepBodySchema : Json :=
@@ -152,10 +152,24 @@ def swaggerAllOfBody : Source :=
     jsonSchema := .obj [], schemaFields := [("example", "examples"), ("x-example", "x-examples")] }
 
 /-- the full statement of `C17_extract_allOf_items` without the OpenAPI 3 field-name hypothesis -/
-def AllOfItemsExtracted : Prop :=
+def AllOfItemsExtracted (vRef : Variant) : Prop :=
   ∀ (s : Source) (kvs first : List (String × Json)) (rest : List Json) (v : Json),
     s.definition.get? "schema" = some (.obj kvs) → Json.lookup "allOf" kvs = some (.arr (.obj first :: rest)) →
-    "example" ∈ s.exampleFields → (∃ b, Json.obj b ∈ rest ∧ Contributes b v) → s.mk' v ∈ extractTopLevel [s]
+    "example" ∈ s.exampleFields → (∃ b, Json.obj b ∈ rest ∧ Contributes b v) → s.mk' v ∈ extractTopLevel vRef [s]
+
+/-- the full statement: a referenced example that is not an Example Object is used as it is -/
+def ReferencedBareExampleExtracted (vRef : Variant) : Prop :=
+  ∀ (srcs : List Source) (s : Source), s ∈ srcs → ∀ (exs : Json), s.definition.get? s.examplesField = some exs →
+    ∀ (k : String) (ex : Json), (k, ex) ∈ objItems exs → hasKey ((s.unresolved.get? k).getD .null) "$ref" = true →
+    hasKey ex "value" = false → hasKey ex "externalValue" = false → s.mk' ex ∈ extractTopLevel vRef srcs
+
+/-- parameter `q` whose `examples.a` is `{$ref: '#/components/examples/Raw'}` and `Raw` is the string "a value here" -/
+def refStringParam : Source :=
+  { isBody := false, container := "query", name := "q",
+    definition := .obj [("name", .str "q"), ("in", .str "query"), ("examples", .obj [("a", .str "a value here")])],
+    exampleFields := ["example"], examplesField := "examples",
+    unresolved := .obj [("a", .obj [("$ref", .str "#/components/examples/Raw")])], respValues := [],
+    jsonSchema := .obj [], schemaFields := [("example", "examples")] }
 
 def exParam : Source :=
   { isBody := false, container := "query", name := "q",
@@ -172,5 +186,103 @@ def nestedSchema : Json :=
   .obj [("type", .str "array"), ("items", .obj [("type", .str "object"), ("properties",
     .obj [("a", .obj [("type", .str "object"), ("properties",
       .obj [("b", .obj [("oneOf", .arr [.obj [("type", .str "string"), ("example", .str "NB")]])])])])])])]
+
+/-! ### the examples phase of one operation as a whole: configurations, histories, faults -/
+
+/-- the property for one declared example `e` that the generated case `c` carries: it is sent unchanged by some
+    request, or it is a header that cannot be put on the wire and the operation ends as an error that reports the
+    unsendable header examples and names this one -/
+def SentOrReported (res : ScenarioResult) (c : ECase) (e : Example) : Prop :=
+  (∃ c' ∈ res.executed, Carries c'.params c'.body e) ∨
+  (∃ n v, e = .param "headers" n v ∧ n ∈ c.invalidHeaders ∧ res.status = .error ∧
+    ∃ names, Report.invalidHeaders names ∈ res.reports ∧ n ∈ names)
+
+/-- the weaker reading: the operation is reported as an error about unsendable header examples (this one possibly
+    not among the names listed) -/
+def SentOrOperationReported (res : ScenarioResult) (c : ECase) (e : Example) : Prop :=
+  (∃ c' ∈ res.executed, Carries c'.params c'.body e) ∨
+  (∃ n v, e = .param "headers" n v ∧ n ∈ c.invalidHeaders ∧ res.status = .error ∧
+    ∃ names, Report.invalidHeaders names ∈ res.reports)
+
+/-- the run is not cut short on the user's own request: a failed check stops the scenario unless
+    continue_on_failure is on (fail-fast is the documented default), an erroring request stops it only when
+    `report_multiple_bugs` was switched off -/
+def NeverStopsEarly (cfg : RunCfg) : Prop :=
+  (∀ x, cfg.verdict x = .fail → cfg.cof = true) ∧ (∀ x, cfg.verdict x = .error → cfg.rmb = true)
+
+/-- the full statement over every Hypothesis configuration that runs explicit examples (any subset of phases with
+    `explicit`, any database), every database content (= every history of earlier runs) and every behaviour of the
+    API / transport (passing, failing checks, erroring requests) that does not cut the run short (`NeverStopsEarly`) -/
+def EveryExampleSentOrReported (vHdr vMark vHash : Variant) : Prop :=
+  ∀ (vExc : Variant) (cases db : List ECase) (cfg : RunCfg), cfg.mode = .examples → HPhase.explicit ∈ cfg.phases →
+    NeverStopsEarly cfg →
+    ∀ c ∈ cases, ∀ e, Carries c.params c.body e → SentOrReported (scenario vExc vHdr vMark vHash (.ok cases) db cfg) c e
+
+/-- the statement as the property text has it, without `NeverStopsEarly` -/
+def EveryExampleSentOrReportedAlways (vHdr vMark vHash : Variant) : Prop :=
+  ∀ (vExc : Variant) (cases db : List ECase) (cfg : RunCfg), cfg.mode = .examples → HPhase.explicit ∈ cfg.phases →
+    ∀ c ∈ cases, ∀ e, Carries c.params c.body e → SentOrReported (scenario vExc vHdr vMark vHash (.ok cases) db cfg) c e
+
+/-- parameter `q` with the examples Q1, Q2 -/
+def twoQueryExamples : List ECase :=
+  [⟨[("query", [("q", .str "Q1")])], none, []⟩, ⟨[("query", [("q", .str "Q2")])], none, []⟩]
+
+/-- header `X-API-Key` with the examples KEY1, KEY2 -/
+def twoApiKeys : List ECase :=
+  [⟨[("headers", [("X-API-Key", .str "KEY1")])], none, []⟩, ⟨[("headers", [("X-API-Key", .str "KEY2")])], none, []⟩]
+
+/-- the API answers 500 to `q=Q2` (a failed check), 200 otherwise -/
+def failsOnQ2 (c : ECase) : Verdict :=
+  match c.params with
+  | [("query", [("q", .str "Q2")])] => .fail
+  | _ => .pass
+
+/-- the full statement about marks: whatever `add_examples` could not turn into a test is reported by `run_test`,
+    however the test itself ended -/
+def MarkAlwaysReported (m : Mark) (rep : Report) : Prop :=
+  ∀ (raised : Raised) (cof : Bool) (n : Nat), rep ∈ (runTest raised cof n [m] []).2
+
+/-! #### executable judgement of what the real code produced (replay) -/
+
+/-- what was observed for one operation in the examples phase -/
+structure Observed where
+  cases : List ECase         -- the requests received / the cases the test body ran on
+  status : Status
+  reports : List Report
+
+def reportsInvalidHeaders (o : Observed) : Bool :=
+  o.reports.any fun r => match r with | .invalidHeaders _ => true | _ => false
+
+def namesInvalidHeader (o : Observed) (name : String) : Bool :=
+  o.reports.any fun r => match r with | .invalidHeaders names => names.contains name | _ => false
+
+def isSent (o : Observed) (e : Expect) : Bool := o.cases.any fun c => meetsB c.params c.body e
+
+/-- the clauses of the property that the observation violates.  `sendable` / `unsendable`: the examples the document
+    declares for the operation (the latter: header values that cannot be sent over HTTP);
+    `judgeSendable = false` when the configuration asked to stop at the first failure and one occurred. -/
+def judge (sendable unsendable : List Expect) (judgeSendable : Bool) (o : Observed) : List String :=
+  (if sendable.isEmpty && unsendable.isEmpty then
+    (if o.cases.isEmpty then [] else ["sent-without-examples"]) ++
+    (if o.status == .skip then [] else ["not-skipped-without-examples"])
+   else []) ++
+  (if judgeSendable then
+    (sendable.filter fun e => !isSent o e).map fun e => "example-not-sent:" ++ e.name else []) ++
+  ((unsendable.filter fun e => !isSent o e && !(o.status == .error && reportsInvalidHeaders o)).map
+    fun e => "unsendable-not-reported:" ++ e.name) ++
+  ((unsendable.filter fun e => !isSent o e && (o.status == .error && reportsInvalidHeaders o) &&
+      !namesInvalidHeader o e.name).map fun e => "unsendable-not-named:" ++ e.name)
+
+/-- the history of the seeded scenario: fuzzing stores a failing input, then the examples phase runs with
+    `phases=[explicit, reuse]` on the same database -/
+def stored : ECase := ⟨[("query", [("limit", .num 0 0)])], none, []⟩
+def fuzzThenExamples : List RunCfg :=
+  [⟨.fuzzing, defaultPhases, true, false, false, [], true, [stored], fun _ => .fail⟩,
+   ⟨.examples, [.explicit, .reuse], true, false, false, [], true, [], fun _ => .fail⟩]
+
+/-- two header parameters whose unsendable examples are combined with different cases -/
+def twoBadHeaders : List ECase :=
+  [⟨[("headers", [("X-A", .str "ok"), ("X-B", .str "b\nb")])], none, ["X-B"]⟩,
+   ⟨[("headers", [("X-A", .str "a\na"), ("X-B", .str "ok")])], none, ["X-A"]⟩]
 
 end SV.Spec.C17
